@@ -110,6 +110,10 @@ def run_case(case):
             for k in rng.sample([0, 1, 2, 3], 2):
                 for outcome in ("response", "error"):
                     opname = "projects/p1/operations/op-%d" % rng.randint(1, 10 ** 6)
+                    if (api.info.get("rest_lro") or {}).get("additional") and rng.random() < 0.5:
+                        # an operation name that only an ADDITIONAL binding of the YAML's GetOperation rule matches
+                        opname = rng.choice(["organizations/o1/operations/op-%d", "folders/f1/locations/l1/operations/op-%d"]) % rng.randint(1, 10 ** 6)
+                        extra_tag = "poll-through-additional-binding"
                     meta = model.new(mtype)
                     rdm.fill(rng, meta, max_depth=1)
                     first = model.new("google.longrunning.Operation")
